@@ -214,6 +214,10 @@ class _Canon:
                     return repr(e.left.value % val if isinstance(e.op, ast.Mod) else e.left.value + val)
                 except (TypeError, ValueError):
                     pass
+            if isinstance(e.op, ast.Mod):
+                f_ = self._percent_format(e)
+                if f_ is not None:
+                    return f_
         if isinstance(e.op, (ast.Add, ast.Sub)):
             # bytes / str concatenation is not commutative: keep order when a
             # bytes/str literal or a known sequence operand is present
@@ -311,10 +315,46 @@ class _Canon:
         return '%s(%s)' % (self.c(e.func), ', '.join(args + kws))
 
     def c_JoinedStr(self, e):
-        return 'f' + repr([self.c(v) if not isinstance(v, ast.Constant) else v.value for v in e.values])
+        # f'a{x}b' and 'a%sb' % x are the same text: both are written fmt('a{}b', x)
+        tpl, args = '', []
+        for v in e.values:
+            if isinstance(v, ast.Constant):
+                tpl += str(v.value).replace('{', '{{').replace('}', '}}')
+            elif isinstance(v, ast.FormattedValue) and v.format_spec is None and v.conversion in (-1, 115):
+                tpl += '{}'
+                args.append(self.c(v.value))
+            else:
+                return 'f' + repr([self.c(x) if not isinstance(x, ast.Constant) else x.value for x in e.values])
+        return 'fmt(%r%s)' % (tpl, ''.join(', ' + a for a in args))
 
     def c_FormattedValue(self, e):
         return '{%s}' % self.c(e.value)
+
+    def _percent_format(self, e):
+        """'a%sb' % x  ->  fmt('a{}b', x)  when every conversion is a plain %s"""
+        import re as _re
+        text = e.left.value
+        if not isinstance(text, str):
+            return None
+        parts = _re.split(r'(%[sdirxXfo%]|%\([a-z_]+\)s|%[0-9.#+\- ]*[sdirxXfo])', text)
+        tpl, n = '', 0
+        for p_ in parts:
+            if p_ == '%s':
+                tpl += '{}'
+                n += 1
+            elif p_ == '%%':
+                tpl += '%'
+            elif p_.startswith('%') and len(p_) > 1:
+                return None
+            else:
+                tpl += p_.replace('{', '{{').replace('}', '}}')
+        if n == 0:
+            return None
+        args = e.right.elts if isinstance(e.right, ast.Tuple) else [e.right]
+        if len(args) != n or isinstance(e.right, ast.Dict):
+            return None
+        # (a single operand that is a tuple at run time would differ from the f-string: trusted not to be)
+        return 'fmt(%r%s)' % (tpl, ''.join(', ' + self.c(a) for a in args))
 
     # -- binders
     def _bind(self, names):
